@@ -68,7 +68,7 @@ def run(ctx):
                 "different lengths, from {absent, empty, 20 kB garbage, symbolic link to a 20 kB file, dangling symbolic link}, through the real storage functions; after each write the file equals what was written "
                 "(account: same length as saved into an empty directory, and loads back equal). E1: histories of 1..3 consecutive issuances with chain lengths "
                 "{1..4}^k and alternating key types in one path, and issuances into paths that already hold an existing pair, another client's pair (secp256k1; RSA-3072 in thorough), "
-                "a truncated or an empty key file, with kp_reuse off and on, and chains served with CRLF line ends, without a final end of line, with a trailing blank line or with text between the blocks; certificate file = served body, key file = CSR key.")
+                "a truncated or an empty key file, with kp_reuse off and on, and chains served with CRLF line ends, without a final end of line, with a trailing blank line or with text between the blocks; and issuances during which every pre-create hook first creates the file itself holding 30 kB; certificate file = served body, key file = CSR key.")
     depth = 3 if ctx.quick else 4
     outs = ctx.pool.map([{"op": "c02_histories", "file_type": ft, "depth": depth} for ft in ("crt", "pk", "account")], 900.0)
     for o in outs:
@@ -110,9 +110,21 @@ def run(ctx):
     for ending in ("crlf", "noeol", "blank", "text-between"):
         for cl in ((1,), (3,), (2, 3)):
             reqs.append(issuance_history(cl, [KT_CYCLE[1]] * len(cl), ending=ending))
+    # pre-create hooks that prepare the file themselves: every recorder hook answers "fill" (a hook called for a file that does not exist
+    # yet creates it holding 30 kB; nothing else changes): what the daemon then writes must still be all the file holds
+    n_fill = 0
+    for cl in ((1,), (4,), (2, 1)):
+        for kpr in (False, True):
+            q = issuance_history(cl, [KT_CYCLE[1 + i] for i in range(len(cl))], kp_reuse=kpr)
+            q["script"] = [{"kind": "hook", "answer": "fill|exit:0"}]
+            q["meta"]["init"] = "hook-prepared"
+            reqs.append(q)
+            n_fill += 1
     obs = e1.run_all(ctx.pool, reqs, 300.0)
     for r, o in zip(reqs, obs):
         e1.check_obs(o)
+        if r["meta"].get("init") == "hook-prepared" and not any(c.get("kind") == "hook" and c.get("tag") == "file-pre-create" and c.get("answer") == "fill|exit:0" for c in o.get("cps", [])):
+            raise RuntimeError("C02 hook-prepared family: no pre-create hook answered 'fill'")
         res.evaluations += 1
         res.transitions += len(o.get("cps", []))
         res.state_keys.update(("issuance", r["meta"].get("init"), r["meta"].get("kp_reuse"), r["meta"].get("ending"), tuple(r["meta"]["chain_lens"][:i + 1]), tuple(r["meta"]["key_types"][:i + 1])) for i in range(len(r["meta"]["chain_lens"])))
